@@ -41,31 +41,35 @@ impl ODev {
     pub fn posted(&self) -> u16 { hal::dev_read_u16(self.a.drv + 2).unwrap().wrapping_sub(self.used) }
 }
 
-fn owning<const N: usize, const B: usize>(ctx: &mut Ctx, flags: u8, nevents: usize, oversize: bool) {
+fn owning<const N: usize, const B: usize>(ctx: &mut Ctx, flags: u8, nevents: usize, oversize: bool, start: u16) {
     hal::reset();
     BUFIDS.with(|b| b.borrow_mut().clear());
     virtio_drivers::verif::set_observer(Some(observer));
     let (indirect, event_idx) = (flags & 1 != 0, flags & 2 != 0);
     let (mut t, st) = ModelTransport::new(TState::new(DeviceType::Input, 0, 2, N as u32));
-    let q = match VirtQueue::<LedgerHal, N>::new(&mut t, 0, indirect, event_idx, false) { Ok(q) => q, Err(_) => return };
+    let mut q = match VirtQueue::<LedgerHal, N>::new(&mut t, 0, indirect, event_idx, false) { Ok(q) => q, Err(_) => return };
     let qi = st.borrow().queues[0];
     let a = QAddr { desc: qi.desc, drv: qi.drv, dev: qi.dev, size: N };
     CURQ.with(|c| *c.borrow_mut() = a);
+    // start the free-running 16-bit indices next to the wrap-around (hook; the device starts there too)
+    if start != 0 { q.verif_set_indices(start); hal::dev_write_u16(a.dev + 2, start).unwrap(); }
     hal::take_log();
     let r = catch_unwind(AssertUnwindSafe(move || OwningQueue::<LedgerHal, N, B>::new(q)));
     let evs = hal::take_log();
     let mut addrs = vec![];
     for e in &evs { if let Ev::Share { vaddr, paddr, .. } = e { let id = addrs.len() as u64; BUFIDS.with(|m| m.borrow_mut().insert(*vaddr, id)); addrs.push(*paddr as u128); } }
-    let mut ins = vec![N as u128, indirect as u128, event_idx as u128, B as u128]; ins.extend(addrs.iter().cloned());
+    let mut ins = vec![N as u128, indirect as u128, event_idx as u128, B as u128, start as u128]; ins.extend(addrs.iter().cloned());
     let mut outs: Vec<u128> = match &r { Ok(Ok(_)) => vec![0, 0], Ok(Err(e)) => vec![1, err_code(e)], Err(_) => vec![2, 0] };
     outs.extend(enc_qevents(&evs, 0));
     ctx.tr.line(1900, &ins, &outs);
     let mut oq = match r { Ok(Ok(q)) => q, _ => return };
-    let mut dev = ODev { a, seen: 0, used: 0, fetched: vec![] };
+    let mut dev = ODev { a, seen: start, used: start, fetched: vec![] };
     let mut expect: Vec<(u16, u32, Vec<u8>)> = vec![];   // (token, claimed len, bytes written) in used order
-    let mut last_used: u16 = 0;
+    let mut last_used: u16 = start;
     let mut done = 0;
-    while done < nevents {
+    let mut idle_rounds = 0;
+    while done < nevents && idle_rounds < 64 {
+        let done_before = done;
         // device: a burst of completions in PRNG order
         dev.fetch();
         let burst = ctx.rng.below(N as u64 + 1) as usize;
@@ -92,14 +96,17 @@ fn owning<const N: usize, const B: usize>(ctx: &mut Ctx, flags: u8, nevents: usi
             let ae = hal::dev_read_u16(a.dev + 4 + 8 * N as u64).unwrap();
             let uf = hal::dev_read_u16(a.dev).unwrap();
             let mark = hal::log_len();
-            let r = { let oq = &mut oq; let t = &mut t; catch_unwind(AssertUnwindSafe(move || oq.poll(t, |b| Ok(Some(b.to_vec()))))) };
+            // what the caller's handler answers: mostly Ok(Some), sometimes Ok(None) or an error
+            let hres: u128 = match ctx.rng.below(8) { 0 => 1, 1 => 2, _ => 0 };
+            let r = { let oq = &mut oq; let t = &mut t; catch_unwind(AssertUnwindSafe(move || oq.poll(t, |b| match hres {
+                0 => Ok(Some(b.to_vec())), 1 => Ok(None), _ => Err(virtio_drivers::Error::IoError) }))) };
             let evs = hal::log_since(mark);
             let addr = evs.iter().find_map(|e| if let Ev::Share { paddr, .. } = e { Some(*paddr) } else { None }).unwrap_or(0);
             let tok = (uid & 0xffff) as u128;
             let (class, has, len) = match &r { Ok(Ok(Some(v))) => (0u128, 1u128, v.len() as u128), Ok(Ok(None)) => (0, 0, 0), Ok(Err(e)) => (1, 0, err_code(e)), Err(_) => (2, 0, 0) };
             let mut o = match &r { Ok(Ok(Some(v))) => vec![0, 1, v.len() as u128, tok], Ok(Ok(None)) => vec![0, 0, 0, 0], Ok(Err(e)) => vec![1, err_code(e), 0, 0], Err(_) => vec![2, 0, 0, 0] };
             o.extend(enc_qevents(&evs, tok));
-            ctx.tr.line(1901, &[B as u128, ui as u128, uid as u128, ulen as u128, addr as u128, ae as u128, uf as u128], &o);
+            ctx.tr.line(1901, &[B as u128, ui as u128, uid as u128, ulen as u128, addr as u128, ae as u128, uf as u128, hres], &o);
             // monitor on the implementation's behaviour
             let pending = !expect.is_empty();
             let (exp_tok, exp_len, bytes_ok) = if has == 1 && pending {
@@ -108,15 +115,22 @@ fn owning<const N: usize, const B: usize>(ctx: &mut Ctx, flags: u8, nevents: usi
                 (*t0 as u128, *l0 as u128, ok as u128)
             } else if pending { (expect[0].0 as u128, expect[0].1 as u128, 0) } else { (0, 0, 0) };
             dev.fetch();
+            // a completion was consumed iff something was pending and its id names a buffer of the queue
+            let consumed = ui != last_used && ((uid & 0xffff) as usize) < N && class != 2;
             // buffers the device still holds + completions the driver has not consumed yet
-            let pending_after = expect.len() as u128 - if class == 0 && has == 1 { 1 } else { 0 };
-            ctx.tr.line(1950, &[N as u128, B as u128, dev.posted() as u128 + pending_after, class, has, len, tok, exp_tok, bytes_ok, if class == 1 || has == 1 { exp_len } else { 0 }], &[1]);
+            let pending_after = expect.len() as u128 - if consumed { 1 } else { 0 };
+            ctx.tr.line(1950, &[N as u128, B as u128, dev.posted() as u128 + pending_after, class, has, len, tok, exp_tok, bytes_ok, if class == 1 || has == 1 { exp_len } else { 0 }, hres], &[1]);
+            if consumed { expect.remove(0); last_used = last_used.wrapping_add(1); done += 1; }
             match class {
-                0 if has == 1 => { expect.remove(0); last_used = last_used.wrapping_add(1); done += 1; ctx.tr.note("owning_delivered"); }
-                0 => { ctx.tr.note("owning_poll_empty"); }
-                _ => { ctx.tr.note("owning_poll_error"); done = nevents; break; }
+                0 if has == 1 => ctx.tr.note("owning_delivered"),
+                0 if consumed => ctx.tr.note("owning_handler_none"),
+                0 => ctx.tr.note("owning_poll_empty"),
+                1 => ctx.tr.note("owning_poll_error"),
+                _ => { ctx.tr.note("owning_poll_panic"); done = nevents; break; }
             }
         }
+        // a queue that has run dry (buffers lost) makes no progress: stop instead of waiting for ever
+        if done == done_before { idle_rounds += 1; } else { idle_rounds = 0; }
     }
     drop(oq); drop(t);
     virtio_drivers::verif::set_observer(None);
@@ -138,7 +152,9 @@ fn input_events(ctx: &mut Ctx, features: u64, nevents: usize) {
     let mut dev = ODev { a, seen: 0, used: 0, fetched: vec![] };
     let mut expect: Vec<Vec<u8>> = vec![];
     let mut done = 0;
-    while done < nevents {
+    let mut idle_rounds = 0;
+    while done < nevents && idle_rounds < 64 {
+        let done_before = done;
         dev.fetch();
         let burst = ctx.rng.below(33) as usize;
         for _ in 0..burst {
@@ -166,6 +182,7 @@ fn input_events(ctx: &mut Ctx, features: u64, nevents: usize) {
                 Err(_) => { ctx.tr.line(1951, &[3, posted, 32, 0, 0], &[1]); done = nevents; break; }
             }
         }
+        if done == done_before { idle_rounds += 1; } else { idle_rounds = 0; }
     }
     drop(input);
     ledger_line(ctx);
@@ -174,14 +191,19 @@ fn input_events(ctx: &mut Ctx, features: u64, nevents: usize) {
 pub fn run(ctx: &mut Ctx) {
     let n = ctx.budget(600, 30) as usize;
     for flags in 0..4u8 {
-        ctx.tr.scenario(&format!("c19-owning-n1-b8-f{}", flags)); owning::<1, 8>(ctx, flags, n / 4, false);
-        ctx.tr.scenario(&format!("c19-owning-n2-b8-f{}", flags)); owning::<2, 8>(ctx, flags, n / 2, false);
-        ctx.tr.scenario(&format!("c19-owning-n4-b64-f{}", flags)); owning::<4, 64>(ctx, flags, n, false);
-        ctx.tr.scenario(&format!("c19-owning-n8-b32-f{}", flags)); owning::<8, 32>(ctx, flags, n, false);
-        ctx.tr.scenario(&format!("c19-owning-n16-b16-f{}", flags)); owning::<16, 16>(ctx, flags, n, false);
-        ctx.tr.scenario(&format!("c19-owning-oversize-n8-f{}", flags)); owning::<8, 32>(ctx, flags, n, true);
+        ctx.tr.scenario(&format!("c19-owning-n1-b8-f{}", flags)); owning::<1, 8>(ctx, flags, n / 4, false, 65534);
+        ctx.tr.scenario(&format!("c19-owning-n2-b8-f{}", flags)); owning::<2, 8>(ctx, flags, n / 2, false, 0);
+        ctx.tr.scenario(&format!("c19-owning-n4-b64-f{}", flags)); owning::<4, 64>(ctx, flags, n, false, 65500);
+        ctx.tr.scenario(&format!("c19-owning-n8-b32-f{}", flags)); owning::<8, 32>(ctx, flags, n, false, 65535 - 3 * flags as u16);
+        ctx.tr.scenario(&format!("c19-owning-n16-b16-f{}", flags)); owning::<16, 16>(ctx, flags, n, false, 32760);
+        ctx.tr.scenario(&format!("c19-owning-oversize-n8-f{}", flags)); owning::<8, 32>(ctx, flags, n, true, 65520);
     }
     for (i, feats) in [0u64, 1 << 28, 1 << 29, (1 << 28) | (1 << 29) | (1 << 32)].iter().enumerate() {
         ctx.tr.scenario(&format!("c19-input-{}", i)); input_events(ctx, *feats, n * 2);
+    }
+    if ctx.tier_thorough {
+        // a real run across the 16-bit wrap: more than 65536 events on one queue and through the input driver
+        ctx.tr.scenario("c19-owning-soak-n8"); owning::<8, 32>(ctx, 2, 70_000, false, 0);
+        ctx.tr.scenario("c19-input-soak"); input_events(ctx, 1 << 29, 70_000);
     }
 }
